@@ -115,9 +115,18 @@ def fs_part(ctx):
     report_mismatches(ctx, mm, st, "MemFS differs from its Coq model (the model the C01-C05 theorems are about) on %d generated histories")
 
 
+def fsbfs_part(ctx):
+    st = {"name": "fsbfs", "harness": "fsbfs", "driver": "fs"}
+    mm = ctx.stream("fsbfs", "fsbfs", "fs")
+    if mm is None:
+        return
+    report_mismatches(ctx, mm, st, "MemFS differs from its Coq model on %d (state, call) pairs of the bounded-exhaustive search")
+
+
 def check_C01(ctx):
     ctx.proofs()
     fs_part(ctx)
+    fsbfs_part(ctx)
     oracle_part(ctx, "admin", "fso", "MemFS deviates from Linux (key %s, %d histories) and the deviation is not a listed known finding")
     corpus_part(ctx, "C01-witness.cases", "fso-corpus")
 
